@@ -55,7 +55,7 @@ def required_counters(tier):
         "nested_unhooked_inside_hooked": 30,
         "nested_hooked_inside_unhooked": 10,
         "pyc_files_created": 200,
-        "runs_with_cache_present": 100, "runs_with_failing_hooked_import": 20, "runs_read_only_cache": 20, "in_process_reimport": 5, "in_process_edit_and_reimport": 5, "runs_with_checking_disabled": 15, "source_edits.same_mtime_other_size": 10, "in_process_rehook_with_other_checker": 5, "histories.sources_older_than_the_library": 20, "runs_python_O": 30, "deep_import.modules": 10,
+        "runs_with_cache_present": 100, "runs_with_failing_hooked_import": 20, "runs_read_only_cache": 20, "in_process_reimport": 5, "in_process_edit_and_reimport": 5, "runs_with_checking_disabled": 15, "source_edits.same_mtime_other_size": 10, "in_process_rehook_with_other_checker": 5, "histories.sources_older_than_the_library": 20, "runs_python_O": 30, "histories.pycache_blocked": 5, "corrupt_cache.scenarios": 4, "deep_import.modules": 10,
     }
 
 
@@ -175,6 +175,15 @@ def run_history(rec, rng, key):
             for m in mods:
                 os.utime(mod_path(root, mods, m), (1_000_000_000, 1_000_000_000))
             rec.count("histories.sources_older_than_the_library")
+        blocked = rng.random() < 0.25
+        if blocked:
+            # no __pycache__ directory can be created or read (a FILE of that name sits in every package directory -
+            # the run is root, permission bits would not stop it): nothing may be cached anywhere else under a name
+            # that forgets the hook configuration
+            for dp, dn, fn in os.walk(root):
+                if os.path.basename(dp) != "__pycache__" and not os.path.exists(os.path.join(dp, "__pycache__")):
+                    open(os.path.join(dp, "__pycache__"), "w").close()
+            rec.count("histories.pycache_blocked")
         nruns = rng.randint(2, 5)
         rec.count("histories")
         for ri in range(nruns):
@@ -215,6 +224,9 @@ def run_history(rec, rng, key):
                 rec.count("runs_with_checking_disabled")
             env["PYTHONPYCACHEPREFIX"] = ""
             env.pop("PYTHONPYCACHEPREFIX", None)
+            env["HOME"] = root  # per-user cache locations, if anything uses them, stay inside this history
+            env.pop("XDG_CACHE_HOME", None)
+            env.pop("JAXTYPING_CACHE_DIR", None)
             spec = {"root": root, "ops": ops, "mode": "api", "extra": None}
             # some runs use an optimizing interpreter (python -O / -OO): ordinary modules then read and write
             # *.opt-1.pyc / *.opt-2.pyc, and the hook's cache entries must stay apart from those as well
@@ -235,9 +247,16 @@ def run_history(rec, rng, key):
             history.append({"run": ri, "ops": ops, "edited": edited, "python_optimize": optimize, "read_only_cache": nowrite, "JAXTYPING_DISABLE": disabled, "pyc_created": created[:12]})
             case = {"rngkey": key, "forest": mods, "history": history}
             if "error" in out:
+                import re as _re
+
+                if _re.search(r"KeyError: '[0-9a-f]{32}'", out["error"]) or _re.search(r"KeyError: '0'", out["error"]):
+                    # a module executed bytecode whose decorators look up a typechecker that THIS run never registered:
+                    # code instrumented for another hook configuration was served from a cache
+                    rec.violation("wrong-instrumentation", case, f"run {ri}: an import failed with {out['error'].strip().splitlines()[0][:160]} - bytecode instrumented for a typechecker this run did not install", mechanism="cache-serves-code-instrumented-for-another-typechecker")
+                    return case
                 rec.inconclusive.append("run failed: " + out["error"])
                 return case
-            if ri == 0 and not created:
+            if ri == 0 and not created and not blocked:
                 rec.inconclusive.append("bytecode was not written in the first run: the cache is not being exercised")
                 return case
             exp, stats = C11.expected(mods, ops, spy_imports=SPYHELPER)
@@ -378,10 +397,83 @@ def arm_deep_import(rec):
         shutil.rmtree(root, ignore_errors=True)
 
 
+CORRUPT_CHILD = r'''
+import importlib, json, sys, warnings
+warnings.filterwarnings("ignore")
+import numpy as np, jaxtyping
+sys.path.insert(0, sys.argv[1])
+hooked = sys.argv[2] == "hooked"
+out = {}
+hook = jaxtyping.install_import_hook(["jtv_corrupt_mod"], "typeguard.typechecked") if hooked else None
+try:
+    mod = importlib.import_module("jtv_corrupt_mod")
+    out = {"import": "ok", "wrapped": hasattr(mod.f, "__wrapped__")}
+    try:
+        out["ill"] = mod.f(np.zeros(2, dtype="float32"), np.zeros(3, dtype="float32"))
+    except Exception as e:
+        out["ill"] = "exc:" + type(e).__name__
+except BaseException as e:
+    out = {"import": "exc:" + type(e).__name__}
+if hook is not None:
+    hook.uninstall()
+print(json.dumps(out))
+'''
+
+
+def arm_corrupt_cache(rec, rng):
+    """run 1 (hooked) writes the hook's cache entry; its payload is then damaged (header intact); run 2 (hooked)
+    may fail to import - as plain Python does on a damaged .pyc - or import the module instrumented, never
+    uninstrumented; run 3 (no hook) gets the plain module"""
+    for damage in ("truncate-payload", "garbage-payload", "half-payload"):
+        root = tempfile.mkdtemp(prefix="jtv_c18_corrupt_")
+        try:
+            with open(os.path.join(root, "jtv_corrupt_mod.py"), "w") as f:
+                f.write(DEEP_MOD.format(big="1 + 1"))
+            env = dict(os.environ)
+            env.pop("PYTHONDONTWRITEBYTECODE", None)
+            env.pop("JAXTYPING_DISABLE", None)
+            env["HOME"] = root
+
+            def run(mode):
+                r = subprocess.run([sys.executable, "-c", CORRUPT_CHILD, root, mode], capture_output=True, text=True, env=env, timeout=600, cwd=root)
+                try:
+                    return json.loads(r.stdout.strip().splitlines()[-1])
+                except Exception:
+                    return {"import": "child-failed: " + r.stderr[-200:]}
+
+            if rng.random() < 0.5:
+                run("plain")  # a stock .pyc exists as well
+            r1 = run("hooked")
+            tagged = [p for p in pycs(root) if "jaxtyping" in p]
+            if r1.get("import") != "ok" or not tagged:
+                rec.inconclusive.append(f"corrupt-cache arm: run 1 gave {r1}, tagged pycs {tagged}")
+                continue
+            for rel in tagged:
+                p = os.path.join(root, rel)
+                data = open(p, "rb").read()
+                body = data[16:]
+                new = {"truncate-payload": b"", "garbage-payload": bytes(rng.randrange(256) for _ in range(len(body))), "half-payload": body[: len(body) // 2]}[damage]
+                with open(p, "wb") as f:
+                    f.write(data[:16] + new)
+            r2 = run("hooked")
+            r3 = run("plain")
+            rec.count("corrupt_cache.scenarios")
+            rec.case(("corrupt-cache", damage), True)
+            case = {"corrupt_cache": damage, "run2_hooked": r2, "run3_plain": r3}
+            if r2.get("import") == "ok" and (not r2["wrapped"] or r2["ill"] != "exc:TypeCheckError"):
+                rec.violation("wrong-instrumentation", case, f"hook cache entry damaged ({damage}): the hooked run imported the module wrapped={r2['wrapped']}, ill-typed call -> {r2['ill']}", mechanism="cache-serves-uninstrumented-code-to-hooked-module")
+            elif r3.get("import") != "ok" or r3.get("wrapped") or r3.get("ill") != "ran":
+                rec.violation("wrong-instrumentation", case, f"hook cache entry damaged ({damage}), then a run WITHOUT the hook: {r3}", mechanism="cache-serves-instrumented-code-to-unhooked-module")
+        finally:
+            shutil.rmtree(root, ignore_errors=True)
+
+
 def run_shard(rec, seed, shard, tier):
     warnings.filterwarnings("ignore")
     if shard["i"] == 0:
         arm_deep_import(rec)
+    if shard["i"] in (1, 2):
+        arm_corrupt_cache(rec, random.Random(f"{seed}/C18/{shard['i']}/corrupt"))
     for k in range(HISTORIES[tier]):
         key = f"{seed}/C18/{shard['i']}/{k}"
         case = run_history(rec, random.Random(key), key)
